@@ -250,6 +250,30 @@ def mof_items_text(items, tmpdir, counter, relative):
     return '\n'.join(out)
 
 
+SCHEMA_CLASS = 'C11_Target'
+
+
+def write_schema_dirs(root, files):
+    """DMTF-schema-like directories: <root>/S<i>/schema.mof (the schema pragma file: one include pragma per class file)
+    and <root>/S<i>/cls/<class>.mof; the class file of SCHEMA_CLASS holds the productions of files[i]; a file that is
+    'not listed' names another class only.  Returns the pragma file paths."""
+    out = []
+    for i, f in enumerate(files):
+        sdir = os.path.join(root, 'S%d' % i)
+        cdir = os.path.join(sdir, 'cls')
+        os.makedirs(cdir)
+        listed = SCHEMA_CLASS if f.get('listed', True) else 'C11_Other'
+        with open(os.path.join(sdir, 'schema.mof'), 'w') as fh:
+            fh.write('#pragma locale ("en_US")\n#pragma include ("cls/C11_Unrelated.mof")\n'
+                     '#pragma include ("cls/%s.mof")\n' % listed)
+        with open(os.path.join(cdir, 'C11_Unrelated.mof'), 'w') as fh:
+            fh.write('class C11_Unrelated { string never_compiled; };\n')
+        with open(os.path.join(cdir, '%s.mof' % listed), 'w') as fh:
+            fh.write(mof_items_text(f.get('prods', []), cdir, [100 * (i + 1)], relative=True) + '\n')
+        out.append(os.path.join(sdir, 'schema.mof'))
+    return out
+
+
 def py_obj(o):
     import pywbem
     if o['k'] == 'cls':
@@ -418,6 +442,17 @@ def real_op(conn, op):
         conn.add_cimobjects([py_obj(o) for o in op['objs']], namespace=ns)
     elif k == 'addObject':
         conn.add_cimobjects(py_obj(op['obj']), namespace=ns)
+    elif k == 'compileSchema':
+        import shutil
+        if not op.get('keep_cache'):
+            conn._mofwbemconnection.classes = NocaseDict()      # pylint: disable=protected-access
+        root = tempfile.mkdtemp(prefix='c11_schema_')
+        try:
+            pragma_files = write_schema_dirs(root, op['files'])
+            conn.compile_schema_classes([SCHEMA_CLASS], pragma_files if len(pragma_files) > 1 or op.get('as_list')
+                                        else pragma_files[0], namespace=ns)
+        finally:
+            shutil.rmtree(root, ignore_errors=True)
     elif k == 'compileMof':
         # the class cache of the MOF connection is not repository content and not modelled: start each compile
         # with an empty cache (the oracle-only search also runs with the cache left alone)
@@ -481,7 +516,7 @@ def op_sig(op, exc):
     """classification of a failing call for known-finding matching"""
     sig = {'kind': 'repository_changed_by_failed_call', 'entry': op['op'], 'exc': exc.get('exc'),
            'code': exc.get('code')}
-    if op['op'] in ('addObjects', 'compileMof'):
+    if op['op'] in ('addObjects', 'compileMof', 'compileSchema'):
         sig['fail_pos'] = op.get('fail_pos')
         sig['fail_pos_ge2'] = bool(op.get('fail_pos') and op['fail_pos'] >= 2)
     if op.get('reason'):
@@ -745,7 +780,7 @@ class Gen:
         rng = self.rng
         kinds = ['createClass'] * 3 + ['modifyClass'] * 2 + ['deleteClass'] * 1 + ['setQualifier', 'deleteQualifier'] + \
             ['createInstance'] * 6 + ['modifyInstance'] * 3 + ['deleteInstance'] * 2 + ['addNamespace', 'removeNamespace'] + \
-            ['addObjects'] * 4 + ['addObject'] + ['compileMof'] * 4
+            ['addObjects'] * 4 + ['addObject'] + ['compileMof'] * 4 + ['compileSchema'] * 2
         for _ in range(30):
             k = rng.choice(kinds)
             op = getattr(self, 'g_' + k)(st)
@@ -1851,6 +1886,34 @@ class Gen:
             return {'k': 'inst', 'inst': i}
         return None
 
+    def g_compileSchema(self, st):
+        """compile_schema_classes with 1-3 schema pragma files; the failure (if any) is in file k, for every k"""
+        rng = self.rng
+        n = self.pick_ns(st)
+        nfiles = rng.choice([1, 2, 2, 3, 3])
+        files = [{'listed': True, 'prods': self.valid_prods(st, n, rng.choice([1, 2, 3]))} for _ in range(nfiles)]
+        reason = rng.choice(['ok', 'not_listed', 'not_listed', 'syntax', 'missing_include', 'cls_nosuper', 'cls_missing_ref',
+                             'cls_undeclared_qual', 'inst_noclass', 'inst_missing_key', 'bad_ns'])
+        op = {'op': 'compileSchema', 'ns': recase(rng, n['name']), 'files': files, 'reason': 'schema_' + reason,
+              'fail_pos': None, 'as_list': rng.random() < 0.5}
+        if reason == 'ok':
+            return op if any(f['prods'] for f in files) else None
+        if reason == 'bad_ns':
+            op['ns'] = self.bad_ns()
+            op['fail_pos'] = 1
+            return op
+        k = rng.randrange(nfiles)
+        if reason == 'not_listed':
+            files[k] = {'listed': False, 'prods': []}
+        else:
+            bad = self.bad_prod(st, n, reason)
+            if bad is None:
+                return None
+            j = rng.randint(0, len(files[k]['prods']))
+            files[k]['prods'] = files[k]['prods'][:j] + [bad] + files[k]['prods'][j:]
+        op['fail_pos'] = k + 1
+        return op
+
     def g_compileMof(self, st):
         rng = self.rng
         n = self.pick_ns(st)
@@ -1915,7 +1978,7 @@ class Gen:
 
 def model_op(op):
     """strip harness-only fields"""
-    return {k: v for k, v in op.items() if k not in ('reason', 'fail_pos', 'via', 'keep_cache') and
+    return {k: v for k, v in op.items() if k not in ('reason', 'fail_pos', 'via', 'keep_cache', 'as_list') and
             not (k == 'code' and v is None)}
 
 
@@ -1928,7 +1991,7 @@ def run_history(seed, thorough, nops, keep_cache=False):
     ops, outs, states, viols = [], [], [], []
 
     def do(op):
-        if keep_cache and op['op'] == 'compileMof':
+        if keep_cache and op['op'] in ('compileMof', 'compileSchema'):
             op['keep_cache'] = True
         exc, viol = real.step(op)
         ops.append(op)
@@ -2206,9 +2269,64 @@ def foreign_exception_probes(run):
                     reason='foreign_type', n_valid=m, fail_pos=k + 1, fail_pos_ge2=(k + 1 >= 2))
 
 
+def schema_classes_probes(run):
+    """compile_schema_classes with lists of 1..3 schema pragma files (DMTF-schema-like directories built in a temp dir)
+    and the failure in file k for EVERY k, for five failure kinds; the repository dump before and after the raising
+    call must be identical - also what the pragma files before the k-th one had compiled must be gone again"""
+    import shutil
+    import pywbem_mock
+
+    def good(i):
+        return {'listed': True, 'prods': [
+            {'k': 'qual', 'qual': {'name': 'C11SQ%d' % i, 'ty': 'boolean', 'scopes': ['any'], 'body': 1}},
+            {'k': 'cls', 'cls': cdef('C11_S%d' % i, None, [], [pdef('k', 'string', quals=[KEYQ]), pdef('v%d' % i, 'uint32')])},
+            {'k': 'inst', 'inst': {'cls': 'C11_S%d' % i, 'props': [pv('k', 'string', sval('i%d' % i))]}}]}
+
+    kinds = {
+        'not_listed': lambda i: {'listed': False, 'prods': []},
+        'cls_nosuper': lambda i: {'listed': True, 'prods': good(i)['prods'] + [
+            {'k': 'cls', 'cls': cdef('C11_Broken%d' % i, 'C11_DoesNotExist', [], [pdef('x', 'uint32')])}]},
+        'syntax': lambda i: {'listed': True, 'prods': good(i)['prods'] + [{'k': 'syntax'}]},
+        'missing_include': lambda i: {'listed': True, 'prods': good(i)['prods'] + [{'k': 'include'}]},
+        'inst_noclass': lambda i: {'listed': True, 'prods': good(i)['prods'] + [
+            {'k': 'inst', 'inst': {'cls': 'C11_NoSuchClass', 'props': [pv('k', 'string', sval('z'))]}}]},
+    }
+    for kind, mkbad in kinds.items():
+        for n in (1, 2, 3):
+            for k in range(n):
+                files = [mkbad(i) if i == k else good(i) for i in range(n)]
+                conn = pywbem_mock.FakedWBEMConnection(default_namespace='root/a')
+                conn.add_namespace('root/b')
+                conn.compile_mof_string(mof_qualdecl(QDECLS[0]) + '\nclass C11_Base { [Key] string k; };\n'
+                                        'instance of C11_Base { k = "b0"; };\n', namespace='root/a')
+                op = {'op': 'compileSchema', 'ns': 'root/a', 'files': files, 'as_list': True}
+                before = full_dump(conn)
+                sigx = {'reason': kind, 'n_files': n, 'fail_pos': k + 1, 'fail_pos_ge2': k + 1 >= 2}
+                try:
+                    real_op(conn, op)
+                    run.count('probe:compile_schema_classes:ok')
+                except Exception as e:  # noqa
+                    exc = common.exc_json(e)
+                    run.count('probe:compile_schema_classes:%s' % exc['exc'])
+                    after = full_dump(conn)
+                    if after != before:
+                        sig = {'kind': 'repository_changed_by_failed_call', 'entry': 'compile_schema_classes',
+                               'exc': exc.get('exc'), 'code': exc.get('code'), 'probe': 'schema_pragma_files'}
+                        sig.update(sigx)
+                        run.violate(sig, {'probe': 'compile_schema_classes', 'args': sigx}, dump_diff(before, after))
+                run.case({'probe': 'compile_schema_classes', 'args': sigx}, nontrivial=True)
+    # all files good: everything is compiled
+    conn = pywbem_mock.FakedWBEMConnection(default_namespace='root/a')
+    conn.compile_mof_string(mof_qualdecl(QDECLS[0]), namespace='root/a')
+    real_op(conn, {'op': 'compileSchema', 'ns': 'root/a', 'files': [good(0), good(1), good(2)], 'as_list': True})
+    if conn.cimrepository.get_class_store('root/a').len() != 3:
+        run.notes.append('compile_schema_classes probe: the three good schema files did not yield three classes')
+
+
 def all_probes(run):
     nsprovider_probes(run)
     foreign_exception_probes(run)
+    schema_classes_probes(run)
 
 
 # --------------------------------------------------------------------------- run / search / replay
